@@ -420,6 +420,12 @@ def c08(ctx):
             ops += [('probe', 0), ('probe', 1)]
             cases.append((name, ops)); note_case(res, name, ops)
     run_regions(ctx, res, cases, lambda e, ops, obs, mo=None: ref_oracle(e, ops, obs, [paired_clause(0, 1)], mo), 'full')
+    # FlatStack: after clear() the stack is a fresh one -- also when it came from with_capacity / merge_capacity (whose
+    # region carries a dictionary for the coded entries) and nothing was copied yet
+    fscases = gen_fs_cases(ctx, list(FS_EXPR), 12 if not ctx.thorough else 120, 12, p_cap=0.25)
+    fscases += fs_coded_cases(ctx, 8 if not ctx.thorough else 60)
+    note_fs(res, fscases)
+    run_fs_cases(ctx, res, fscases)
     return res
 
 # ------------------------------------------------------------------ C09
@@ -471,6 +477,25 @@ def c09(ctx):
     res.assumptions.append('independence of the two copies in the implementation rests on Rust ownership (no unsafe/Rc/interior '
                            'mutability in any Clone impl); the model is a value model and cannot exhibit aliasing')
     run_regions(ctx, res, cases, lambda e, ops, obs, mo=None: ref_oracle(e, ops, obs, [paired_clause(0, 1)], mo), 'full')
+    # FlatStack::clone: the stack continues as its own clone after arbitrary prefixes (value semantics: the list of
+    # copied values and every observation must be unaffected, all later copies land behind the cloned contents)
+    fscases = []
+    for name in FS_EXPR:
+        e, o = FS_EXPR[name]
+        if not caps(e)['clone']: continue
+        for _ in range(8 if not ctx.thorough else 80):
+            vg = gen.ValueGen(ctx.rng, big=ctx.thorough); sh = shape(e); ops = []
+            for _ in range(ctx.rng.choice([1, 3, 8])):
+                r = ctx.rng.random()
+                if r < 0.5: ops.append(('copy', vg.gen(sh)))
+                elif r < 0.6: ops.append(('clear',))
+                elif r < 0.8: ops.append(('extend', [vg.gen(sh) for _ in range(ctx.rng.randrange(4))]))
+                else: ops.append(('clone',))
+            ops += [('clone',), ('observe',)]
+            ops += [('copy', vg.gen(sh)) for _ in range(ctx.rng.choice([1, 2, 5]))] + [('observe',)]
+            fscases.append((name, ops))
+    note_fs(res, fscases)
+    run_fs_cases(ctx, res, fscases)
     return res
 
 # ------------------------------------------------------------------ C10
@@ -511,6 +536,12 @@ def c10(ctx):
     # a coded region merged from trained sources legitimately stores (and indexes) differently from a default one
     run_regions(ctx, res, cases, lambda e, ops, obs, mo=None: ref_oracle(
         e, ops, obs, [paired_clause(0, 1)] + ([] if coded(e) else [paired_clause(0, 3)]), mo), 'full')
+    # FlatStack::reserve / with_capacity / merge_capacity / reserve_regions: invisible, and the stacks they return are empty
+    # and usable (for the coded entries within the dictionary the merged region carries)
+    fscases = gen_fs_cases(ctx, list(FS_EXPR), 15 if not ctx.thorough else 150, 12, p_cap=0.5)
+    fscases += fs_coded_cases(ctx, 8 if not ctx.thorough else 60)
+    note_fs(res, fscases)
+    run_fs_cases(ctx, res, fscases)
     return res
 
 # ------------------------------------------------------------------ C11
@@ -1033,6 +1064,8 @@ def fs_op_str(op):
     if k == 'copy': return 'copy ' + gen.show(op[1])
     if k in ('extend', 'fromiter', 'extendlazy'): return k + ' ' + gen.show(list(op[1]))
     if k == 'reserve': return 'reserve %x' % op[1]
+    if k in ('withcap', 'mergecap'): return '%s %x' % (k, op[1])
+    if k == 'resregs': return 'resregs ' + gen.show(list(op[1]))
     return k
 
 def fs_oracle(e, o, ops, obs, index_free=False):
@@ -1045,7 +1078,7 @@ def fs_oracle(e, o, ops, obs, index_free=False):
         if k == 'copy': l.append(op[1])
         elif k in ('extend', 'extendlazy'): l += list(op[1])
         elif k == 'fromiter': l = list(op[1])
-        elif k == 'clear': l = []
+        elif k in ('clear', 'withcap', 'mergecap'): l = []
         elif k == 'serde':
             v = gen.parse(g)
             if not isinstance(v, list) or len(v) != 2 or v[0] != v[1]:
@@ -1065,10 +1098,38 @@ def fs_oracle(e, o, ops, obs, index_free=False):
                 if len(v) > 8 and any(x != 0 for x in v[8]): return f'op {t}: the stack holds index capacity {v[8]} over a dense-index region'
     return None
 
-def gen_fs_cases(ctx, names, n, maxops, observe_each=True, p_serde=0.0):
+def fs_coded_cases(ctx, n):
+    """FlatStack over dictionary-coded regions: train, merge_capacity (the new stack's region carries a dictionary),
+    then covered copies; clear at any point must give a stack that takes arbitrary values again"""
+    cases = []
+    for name in FS_EXPR:
+        e, o = FS_EXPR[name]
+        if not coded(e): continue
+        for _ in range(n):
+            pool, train = coded_pool(ctx, e)
+            vg = gen.ValueGen(ctx.rng); sh = shape(e)
+            ops = [('copy', v) for v in train] + [('observe',), ('mergecap', ctx.rng.choice([1, 1, 2]))]
+            r = ctx.rng.random()
+            def tagged(t):
+                # a string whose first byte is a low byte value (the tags a dictionary hands out first)
+                v = vg.gen(sh)
+                return [t, 0x78, 0x79] if isinstance(v, list) and all(isinstance(x_, int) for x_ in v) else v
+            if r < 0.4:
+                # clear the merged, still empty stack: it must be a fresh one (arbitrary values accepted again, stored raw)
+                ops += [('clear',)] + [('copy', vg.gen(sh)) for _ in range(ctx.rng.choice([1, 3, 6]))]
+                ops += [('copy', tagged(t)) for t in (0, 1, 2)] + [('copy', ctx.rng.choice(pool)), ('observe',)]
+            else:
+                ops += [('copy', ctx.rng.choice(pool)) for _ in range(ctx.rng.choice([1, 4, 9]))] + [('observe',)]
+                if r < 0.7: ops += [('clear',)] + [('copy', vg.gen(sh)) for _ in range(3)] + [('observe',)]
+                else: ops += [('mergecap', 1)] + [('copy', ctx.rng.choice(pool)) for _ in range(3)] + [('observe',)]
+            cases.append((name, ops))
+    return cases
+
+def gen_fs_cases(ctx, names, n, maxops, observe_each=True, p_serde=0.0, p_cap=0.0):
     cases = []
     for name in names:
         e, o = FS_EXPR[name]
+        if coded(e): continue
         for _ in range(n):
             vg = gen.ValueGen(ctx.rng, big=ctx.thorough); sh = shape(e); recent = []
             def val():
@@ -1085,6 +1146,13 @@ def gen_fs_cases(ctx, names, n, maxops, observe_each=True, p_serde=0.0):
                 elif r < 0.88: ops.append(('clone',))
                 else: ops.append(('reserve', ctx.rng.choice([0, 1, 10, 100])))
                 if p_serde and ctx.rng.random() < p_serde: ops.append(('serde',))
+                if p_cap and ctx.rng.random() < p_cap:
+                    r2 = ctx.rng.random()
+                    if r2 < 0.3: ops.append(('withcap', ctx.rng.choice([0, 1, 7, 100])))
+                    elif r2 < 0.6: ops.append(('mergecap', ctx.rng.choice([0, 1, 2, 3])))
+                    elif not contains(e, 'cols'): ops.append(('resregs', [val() for _ in range(ctx.rng.randrange(4))]))
+                    # (ColumnsRegion::reserve_regions creates columns: invisible to reads and indices -- C10's sim --
+                    #  but not to heap_size, which this observation includes; the region-level C10 check covers it)
                 if observe_each: ops.append(('observe',))
             ops.append(('observe',))
             cases.append((name, ops))
@@ -1106,9 +1174,10 @@ def run_fs_cases(ctx, res, cases, index_free_names=()):
                                      'observed': io, 'model': mo, 'known': None})
             res.compared += 1
             def strip(x):
+                # the model predicts everything but the size-hint flag and the capacities
                 if x.startswith('['):
                     v = gen.parse(x)
-                    if len(v) == 9: return gen.show(v[:7])
+                    if len(v) == 10: return gen.show(v[:7] + [v[9]])
                 return x
             pi = [strip(x) for x in io]
             if pi != mo:
@@ -1132,7 +1201,8 @@ def c03(ctx):
                 'of copy / extend / from_iter / clear / clone / reserve, observed after every step: len, is_empty, get(i) '
                 'for every i < len, get(len), get(len+1) (must panic), iteration, a cloned iterator after one step, '
                 'size_hint bounds; compared with a Python list of the copied values and with the Coq FlatStack model')
-    cases = gen_fs_cases(ctx, list(FS_EXPR), 25 if not ctx.thorough else 300, 14)
+    cases = gen_fs_cases(ctx, list(FS_EXPR), 25 if not ctx.thorough else 300, 14, p_cap=0.12)
+    cases += fs_coded_cases(ctx, 4 if not ctx.thorough else 40)
     # bounded-exhaustive part: over a region whose indices are caller-controlled (MirrorRegion<usize>) the index
     # container sees arbitrary usize sequences; all sequences of length <= L over the transition-covering
     # alphabet of C05 (0, s, 2s, 3s, 7, 2^32-1, 2^32, 2^63, 2^64-1), copied one by one and via extend
